@@ -32,8 +32,12 @@ def udf_classes():
 def gen_group(r, agg):
   n = r.choice([0, 1, 2, 3, 3, 4, 4, 5, 6, 7, 9, 12])
   if agg in ('ArgMin', 'ArgMax'):
-    kind = r.choice(['int', 'int', 'float', 'str'])
-    if kind == 'int' and r.random() < 0.25:
+    kind = r.choice(['int', 'int', 'float', 'str', 'mixed'])
+    if kind == 'mixed':
+      # integers and floats in one group (numerically distinct: 1 and 1.0 would tie)
+      pool_ = r.sample(range(-20, 40), n)
+      vals = [v if r.random() < 0.5 else v + 0.5 for v in pool_]
+    elif kind == 'int' and r.random() < 0.25:
       # zero as the extreme value: a running best of 0 must not be mistaken for "none yet"
       vals = r.sample(range(-12, 1) if r.random() < 0.5 else range(0, 13), min(n, 12))
     elif kind == 'int':
